@@ -118,6 +118,10 @@ func LoadProg(dir string, overlay map[string][]byte) (*Prog, error) {
 		}
 	})
 	known := loadKnownFuncs(verifDirForNormalize)
+	oracle := loadKnownOracle(verifDirForNormalize)
+	if oracle != nil && len(oracle.Prints) == 0 {
+		oracle = nil
+	}
 	if known != nil && os.Getenv("VERIF_NOINLINE") == "" {
 		// dependency order among module packages
 		var order []*packages.Package
@@ -153,10 +157,34 @@ func LoadProg(dir string, overlay map[string][]byte) (*Prog, error) {
 			}
 			view := &pkgView{Fset: pk.Fset, Syntax: pk.Syntax, TypesInfo: pk.TypesInfo, Types: pk.Types}
 			total := 0
+			// step 0: renamed unexported functions and fields get their pinned names back (rename.go)
+			if oracle != nil {
+				var snap []*ast.File
+				for _, f := range view.Syntax {
+					snap = append(snap, cloneAST(f).(*ast.File))
+				}
+				if n, log := undoRenames(view, rel(pk.PkgPath), oracle); n > 0 {
+					tp2, info2, err := recheck(pk.PkgPath, pk.Fset, view.Syntax, imp, pk.TypesSizes)
+					if err == nil {
+						view.Types, view.TypesInfo = tp2, info2
+						p.NormalizeLog = append(p.NormalizeLog, log...)
+						total = 1
+					} else {
+						p.NormalizeLog = append(p.NormalizeLog, fmt.Sprintf("%s: rename recognition abandoned (%v)", rel(pk.PkgPath), err))
+						view.Syntax = snap
+						tp3, info3, err3 := recheck(pk.PkgPath, pk.Fset, snap, imp, pk.TypesSizes)
+						if err3 != nil {
+							return nil, fmt.Errorf("load: re-check of %s failed: %v", pk.PkgPath, err3)
+						}
+						view.Types, view.TypesInfo = tp3, info3
+						total = 1
+					}
+				}
+			}
 			var orig []*ast.File
 			for round := 0; round < 4; round++ {
 				if round == 0 {
-					for _, f := range pk.Syntax {
+					for _, f := range view.Syntax {
 						orig = append(orig, cloneAST(f).(*ast.File))
 					}
 				}
